@@ -60,6 +60,25 @@ func TestEmitRegress(t *testing.T) {
 		write("C19", "d4-supernet-of-loopback-mapped-"+string(rune('0'+p)), "c19", "contains-reserved", "D4 (IPv4-mapped form)",
 			c19Case{What: "net", IP: "127.0.0.1", Prefix: p, Mapped: true})
 	}
+	// D5c: EV certificate with three .onion names and a descriptor for the first only
+	{
+		v, _ := gen.ViewCert(o.DER)
+		names := []string{"www.aaaaaaaaaaaaaaab.onion", "www.aaaaaaaaaaaaaaac.onion", "www.aaaaaaaaaaaaaaad.onion"}
+		var g []*dt.Node
+		for _, n := range names {
+			g = append(g, gen.GNDNS([]byte(n)))
+		}
+		v.SetSAN(false, g...)
+		v.RemoveCN()
+		v.SetPolicies([]int{2, 23, 140, 1, 1})
+		v.SetEKU(gen.EKUServerAuth)
+		hash := append([]byte{0}, make([]byte, 32)...)
+		desc := dt.Seq(dt.Prim(0, 12, []byte("https://aaaaaaaaaaaaaaab.onion")), gen.AlgID([]int{2, 16, 840, 1, 101, 3, 4, 2, 1}, false), dt.Prim(0, 3, hash))
+		v.SetExt([]int{2, 23, 140, 1, 31}, false, dt.Seq(desc))
+		c := c05Case{Reps: 40}
+		c.Kind, c.DER, c.Base = gen.Cert, v.DER(), o.Name
+		write("C05", "d5c-tor-descriptor-map-order", "c05", "repeat-details|e_ext_tor_service_descriptor_hash_invalid", "D5c: first .onion name lacking a descriptor chosen in map order", c)
+	}
 	// D5a: key usage order (any certificate with the strictPurpose finding; repetition oracle)
 	hm := homeObjects()
 	for _, i := range hm["e_key_usage_and_extended_key_usage_inconsistent"] {
